@@ -8,6 +8,7 @@ require (
 	github.com/getlantern/golog v0.0.0-20210606115803-bce9f9fe5a5f
 	github.com/getlantern/wal v0.0.0-20220217194315-e4eac848dbd1
 	github.com/getlantern/zenodb v0.0.0
+	github.com/golang/snappy v0.0.3
 	github.com/gorilla/mux v1.7.1
 	github.com/gorilla/securecookie v1.1.1
 )
